@@ -1,5 +1,6 @@
 import CloakModel.Model.Sender
 import CloakModel.Lemmas.SenderCore
+import CloakModel.Lemmas.SenderOrder
 
 /-! # C13 — Each stream's frames carry unique, gap-free sequence numbers in write order
 
@@ -242,6 +243,92 @@ theorem c13_order (calls : List Call) (sched1 sched2 : List Nat) (w : Nat) (c : 
   have := (hall' g hg2).2
   omega
 
+
+/-! ### per-call order -/
+
+/-- the payload chunks a call hands to the encoder, in call order -/
+def callPls : Call → List Nat
+  | .write fs => fs.map (·.1)
+  | .readFrom cs => cs.map (·.1)
+  | .close pl _ => [pl]
+
+theorem plsOf_append (a b : List Instr) : plsOf (a ++ b) = plsOf a ++ plsOf b := by
+  induction a with
+  | nil => simp [plsOf]
+  | cons i a ih => cases i <;> simp [plsOf, ih]
+
+theorem plsOf_prog (c : Call) : plsOf c.prog = callPls c := by
+  unfold Call.prog
+  rw [gen_shape]
+  cases c with
+  | write fs =>
+    simp only [Call.progW, sect, if_true, callPls]
+    simp only [plsOf, List.cons_append, plsOf_append, List.append_nil]
+    induction fs with
+    | nil => simp [plsOf]
+    | cons x xs ih =>
+      simp [List.flatMap_cons, plsOf_append, frameI, plsOf] at ih ⊢
+      exact ih
+  | readFrom cs =>
+    simp only [Call.progW, callPls]
+    induction cs with
+    | nil => simp [plsOf]
+    | cons x xs ih =>
+      simp [List.flatMap_cons, plsOf_append, frameI, sect, plsOf] at ih ⊢
+      exact ih
+  | close pl r => simp [Call.progW, sect, frameI, plsOf, callPls]
+
+/-- **C13 (order, per call).** In log order — which by `c13_gapfree` is number order — the payloads
+logged for call `t` are a prefix of the chunks that call was given, in the order it was given them:
+a call's bytes are never reordered, duplicated or mixed with foreign data; only a tail can be missing
+(the call was refused, or returned early on a failed send).  With `c13_section_exclusive` (a `Write`
+holds the mutex across all its frames) the data frames in number order are whole accepted writes,
+each in its own order. -/
+theorem c13_call_order (calls : List Call) (sched : List Nat) (t : Nat) (c : Call) (hc : calls[t]? = some c) :
+    let s := runSched (init (calls.map Call.prog)) sched
+    (s.enc.filter (fun f => decide (f.owner = t))).map (·.pl) <+: callPls c := by
+  intro s
+  have hq := run_Q (calls.map Call.prog) sched _ (calls_inv calls) (init_Q _)
+  have hinv := run_inv sched _ (calls_inv calls)
+  -- thread t still exists in the final state
+  have hlen : ∀ (sched : List Nat) (s0 : State), (runSched s0 sched).thr.length = s0.thr.length := by
+    intro sched
+    induction sched with
+    | nil => intro s0; rfl
+    | cons u us ih =>
+      intro s0
+      simp only [runSched]
+      split
+      · rename_i s1 hs1
+        rw [ih s1]
+        unfold step at hs1
+        split at hs1
+        · simp at hs1
+        · split at hs1
+          · simp at hs1
+          · split at hs1 <;> simp at hs1 <;> subst hs1 <;> simp
+          · simp at hs1; subst hs1; simp
+          · split at hs1 <;> simp at hs1 <;> subst hs1 <;> simp [abort]
+          · split at hs1 <;> simp at hs1 <;> subst hs1 <;> simp [abort]
+          · simp at hs1; subst hs1; simp
+          · split at hs1
+            · simp at hs1; subst hs1; simp
+            · simp at hs1
+          · split at hs1
+            · simp at hs1
+            · split at hs1 <;> simp at hs1 <;> subst hs1 <;> simp [abort]
+      · exact ih s0
+  have ht : t < calls.length := (List.getElem?_eq_some_iff.1 hc).1
+  have hthr : t < s.thr.length := by
+    show t < (runSched (init (calls.map Call.prog)) sched).thr.length
+    rw [hlen]; simp [init]; exact ht
+  have hget : s.thr[t]? = some s.thr[t] := List.getElem?_eq_getElem hthr
+  have hp0 : (calls.map Call.prog)[t]? = some c.prog := by simp [List.getElem?_map, hc]
+  have := hq t s.thr[t] c.prog hget hp0
+  rw [plsOf_prog] at this
+  rw [List.append_assoc] at this
+  exact (List.prefix_append _ _).trans this
+
 /-! ### nonces -/
 
 /-- id of the `k`-th stream opened by `OpenStream` (`k = 0,1,…`): `atomic.AddUint32(&next, 1) - 1`,
@@ -326,5 +413,6 @@ end C13
 
 #print axioms C13.c13_gapfree
 #print axioms C13.c13_order
+#print axioms C13.c13_call_order
 #print axioms C13.c13_nonce_unique
 #print axioms C13.c13_unlocked_witness
